@@ -19,7 +19,7 @@ pub fn property() -> Property {
             "nesting depth <= 4 (quick) / 8 (thorough), collections <= 25 (quick) / 40 (thorough)".into(),
         ],
         subchecks: vec![
-            SubCheck { name: "roundtrip", kind: Kind::Tape { quick: 600_000, thorough: 30_000_000, max_len: 600 }, run: roundtrip },
+            SubCheck { name: "roundtrip", kind: Kind::Tape { quick: 3_000_000, thorough: 30_000_000, max_len: 600 }, run: roundtrip },
             SubCheck { name: "per_type_floor", kind: Kind::Enum { count: floor_count, make: floor_make, exhaustive_note: "" }, run: floor_case },
             SubCheck { name: "body_masks", kind: Kind::Enum { count: |_| 1 << 18, make: idx_make, exhaustive_note: "all 2^18 presence masks of the 18 optional TransactionBody fields, minimal and boundary contents" }, run: body_mask_case },
             SubCheck { name: "ppu_masks", kind: Kind::Enum { count: ppu_count, make: idx_make, exhaustive_note: "all ProtocolParamUpdate presence masks of weight <= 2 and >= 29 (of 31 settable fields) plus a seeded sample" }, run: ppu_mask_case },
